@@ -322,6 +322,68 @@ def check_concurrent(chk, progs, o, label):
         chk.violation(label, '%s:%s' % (label, hash(repr(case)) % 10 ** 8), {'case': case, 'observed': {'results': o['results'], 'threads': o['nthreads']}}, '%s, %d preemptions: %s' % (progs, o['preempt'], what))
 
 
+def negotiated_lifecycles(chk):
+    """Lifecycles of a connection that negotiates its version (several allowed versions): the status query goes unanswered, the
+    documented fallback logs in with the default version, and the same object is then disconnected and connected again, twice.
+    Every call returns normally, each connect() leaves the connection active, and nothing depends on HOW the default version was
+    named - by protocol number, by version name, or not at all (the latest allowed one)."""
+    from minecraft.networking.connection import Connection
+    import json, builtins, c09
+    outcomes = {}
+    for label, allowed, initial, dflt in (('number', [340, 757], 340, 340), ('name', ['1.12.2', '1.18.1'], '1.12.2', 340), ('name+number', [340, 757], '1.12.2', 340),
+                                          ('latest', [340, 757], None, 757), ('latest-by-name', ['1.12.2', '1.18.1'], None, 757)):
+        servers = []
+        ids = proto.Ids(dflt)
+        servers.append(sim.Server([], end='eof'))                                                        # the status query: the server closes
+        for rnd in range(3):
+            servers.append(sim.Server([proto.frame(ids.login_success, ids.b_login_success()), proto.frame(ids.keep_alive, ids.b_keep_alive(5 + rnd))], end='idle'))
+        net = sim.Net(servers).install()
+        log, excs = [], []
+        rp = builtins.print
+        builtins.print = lambda *a, **k: None
+        try:
+            conn = Connection('localhost', 25565, username='user', allowed_versions=allowed, initial_version=initial, handle_exception=lambda e, i: excs.append(e))
+            for rnd in range(3):
+                for op in ('connect', 'run', 'disconnect'):
+                    try:
+                        if op == 'connect':
+                            conn.connect()
+                        elif op == 'run':
+                            net.run_threads(conn)
+                        else:
+                            conn.disconnect()
+                            net.run_threads(conn)
+                        active = (conn.networking_thread is not None and not conn.networking_thread.interrupt) or conn.new_networking_thread is not None
+                        log.append([op, 'ok', bool(active) if op != 'run' else None])
+                    except Exception as e:
+                        log.append([op, 'raised ' + exn_name(e), None])
+        except Exception as e:
+            log.append(['construct', 'raised ' + exn_name(e), None])
+        finally:
+            builtins.print = rp
+            net.uninstall()
+        heads = []
+        for s_ in servers:
+            if s_.sends:
+                try:
+                    h = c09.parse_conn(None, b''.join(s_.sends))
+                    heads.append([h[0], h[3]])
+                except Exception as e:
+                    heads.append(['unparseable', exn_name(e)])
+        exp_log = [[op, 'ok', {'connect': True, 'run': None, 'disconnect': False}[op]] for _ in range(3) for op in ('connect', 'run', 'disconnect')]
+        # the first connect negotiates (status query at the latest allowed version, unanswered, then the fallback); after the
+        # fallback the connection is pinned to the default version and logs in directly
+        exp_heads = [[757, 1], [dflt, 2], [dflt, 2], [dflt, 2]]
+        chk.count('negotiated-lifecycle', [label], True)
+        obs = {'calls': log, 'connections': heads, 'errors': [exn_name(e) for e in excs]}
+        exp = {'calls': exp_log, 'connections': exp_heads, 'errors': []}
+        outcomes[label] = obs
+        if obs != exp:
+            k = next(k for k in exp if obs[k] != exp[k])
+            chk.violation('negotiated-lifecycle', 'negotiated-lifecycle:%s' % label, {'case': {'allowed_versions': allowed, 'initial_version': initial}, 'expected': exp, 'observed': obs},
+                          'allowed_versions=%r initial_version=%r, status query unanswered, then disconnect/connect twice more: %s are %s; expected %s' % (allowed, initial, k, str(obs[k])[:300], str(exp[k])[:200]))
+
+
 def run(chk):
     common.standard_proof(chk, 'Properties/C16.v')
     rng, th = chk.rng, chk.tier == 'thorough'
@@ -348,6 +410,7 @@ def run(chk):
         n = rng.randrange(3, 7)
         hist.append(([rng.choice(base) for _ in range(n)], [rng.choice(SERVERS) for _ in range(6)], rng.choice(['none', 'none', 'listener', 'handler'])))
     sequential(chk, hist)
+    negotiated_lifecycles(chk)
     # two user threads
     small = [[['connect'], ['connect']], [['connect', 'disconnect'], ['connect']], [['connect'], ['disconnect', 'connect']],
              [['status'], ['connect']], [['connect', 'disconnect', 'connect'], ['disconnect']]]
